@@ -244,13 +244,35 @@ def groups(arity: int) -> list[list]:
     return out
 
 
+def big_group(n: int, arity: int, tag: str) -> list:
+    out = []
+    for i in range(n):
+        st = (I(f"http://a/{tag}{i}"), I("http://a/p"), L(str(i)))
+        out.append(st if arity == 3 else (*st, I(f"http://a/g{tag}")))
+    return out
+
+
 def check_write(case: dict) -> list[tuple[str, str]]:
     api, arity = case["api"], case["arity"]
-    gl = groups(arity)
-    inputs = [gl[i] for i in case["groups"]]
     lt = 3 if arity == 3 else 4
     cls = "triple" if arity == 3 else "quad"
-    opts = DR.make_options(cls, (8, 2, 0), 250, True, lt, generalized=False, rdf_star=False)
+    if case.get("big"):
+        # graphs larger than the default frame size, grouped flow given as an explicit object
+        inputs = [big_group(n, arity, f"b{k}") for k, n in enumerate((300, 5, 260, 1))]
+        from pyjelly.serialize import flows  # noqa: PLC0415
+
+        how = case["big"]
+        if how == "explicit-flow":
+            flow = flows.GraphsFrameFlow() if arity == 3 else flows.DatasetsFrameFlow()
+            opts = DR.make_options(cls, (4000, 150, 32), 250, True, 0, generalized=False,
+                                   rdf_star=False, flow=flow)
+        else:
+            opts = DR.make_options(cls, (4000, 150, 32), 250, True, lt, generalized=False,
+                                   rdf_star=False)
+    else:
+        gl = groups(arity)
+        inputs = [gl[i] for i in case["groups"]]
+        opts = DR.make_options(cls, (8, 2, 0), 250, True, lt, generalized=False, rdf_star=False)
     out = io.BytesIO()
     if api == "generic":
         from pyjelly.integrations.generic import serialize as ser  # noqa: PLC0415
@@ -288,8 +310,10 @@ def check_write(case: dict) -> list[tuple[str, str]]:
     else:
         ok = frames == nonempty
     if not ok:
-        return [("frames", f"{len(nonempty)} non-empty inputs {nonempty} were written as "
-                           f"{len(frames)} statement-carrying frames {frames}")]
+        return [("frames", f"{len(nonempty)} non-empty inputs of sizes {[len(g) for g in nonempty]} "
+                           f"were written as {len(frames)} statement-carrying frames of sizes "
+                           f"{[len(f) for f in frames]}: inputs {str(nonempty)[:300]} frames "
+                           f"{str(frames)[:300]}")]
     return []
 
 
@@ -309,6 +333,18 @@ def write_shard(job) -> dict:
             fails = [("raised", f"grouped serialisation raised {type(e).__name__}: {e}")]
         for kind, msg in fails:
             acc.violation({"side": "write", "fail": kind, "api": api}, f"{msg} case={case}", case)
+    if lo == 0:
+        for how in ("explicit-flow", "logical-type"):
+            case = {"side": "write", "api": api, "arity": arity, "groups": [], "big": how}
+            acc.evals += 1
+            acc.nontrivial += 1
+            try:
+                fails = check_write(case)
+            except Exception as e:  # noqa: BLE001
+                fails = [("raised", f"grouped serialisation raised {type(e).__name__}: {e}")]
+            for kind, msg in fails:
+                acc.violation({"side": "write", "fail": kind, "api": api, "big": how},
+                              f"{msg[:400]} case={case}", case)
     acc.sample({"side": "write", "api": api, "arity": arity, "first": lo}, cap=1)
     return acc.out()
 
